@@ -233,10 +233,17 @@ func (r *Rec) Case(canon string, nontrivial bool, labels ...string) {
 	if nontrivial {
 		r.nontrivial[hash64(canon)] = struct{}{}
 	}
+	layer := ""
 	for _, l := range labels {
 		if l != "" {
 			r.labels[l]++
+			if layer == "" {
+				layer = strings.SplitN(l, " ", 2)[0]
+			}
 		}
+	}
+	if layer != "" {
+		r.labels["@cases "+layer]++ // cases per layer (the first word of a case's first label names its layer)
 	}
 }
 
